@@ -54,6 +54,10 @@ CHECKS = {
   text='Coq theorems over the model of the NCSD partition-table loop: for every table of 32-bit entries the listed partitions are exactly the entries with a non-zero offset, at offset*0x200 with size*0x200; wrong magic and zero media id are refused; the CDN/SD content-file resolution rule lists a record iff a file with its lower- or upper-case id exists (others unaffected). Extracted table parser compared with CCIReader.sections. The same NCCHs packaged as CCI, CDN directory (three key-supply modes, name cases, MemoryFS/OS directories), plain SD title and SD-encrypted title (through SDRoot) are checked for listing, raw bytes and nested sections against independent builders.',
   note='Partial: the cross-packaging equality of nested readers is sampled (oracle); views rely on C02/C09/C14. Trusted: Coq kernel, extraction + driver, hand model Ncsd.v, builders pack.py / ncch.py / sdcommon.py, PyFilesystem2.',
   technique='Rocq/Coq proof of the table codec and resolution rule + correspondence + metamorphic builder oracle'),
+ 'C14': dict(
+  text='Coq theorems about the sd_path_to_iv regenerated from engine.py (str.lower and SHA-256 uninterpreted): the counter is a function of the lower-cased, forward-slashed path only; for paths outside /backup it is the xor of the two halves of SHA-256 of the normalised path as NUL-terminated UTF-16LE; it is case-insensitive and separator-insensitive (under the stated hypotheses on lower); UTF-16LE encoding of scalar values is injective. setup_sd_key (accepted lengths, ID0) is modelled and run against the implementation. File views are CTR wrappers (C01/C12). Reads, writes, raw backing bytes after writes, ID0, root and opendir views on MemoryFS and OS directories are decided against an independent derivation.',
+  note='Trusted: Coq kernel, translator, hand model Sd.v, independent derivation sdcommon.py, PyFilesystem2, Python str.lower/UTF-16. Hypotheses on lower: idempotent and commuting with the backslash replacement (Example with ASCII lower-casing).',
+  technique='Rocq/Coq proofs over the regenerated kernel (+ UTF-16 injectivity) + correspondence + independent-derivation oracle'),
 }
 
 NOT_YET = 'check not built yet in this session (work in progress; see DESIGN.md section 10 order of work)'
